@@ -224,7 +224,7 @@ pub fn gen_zone(rng: &mut Rng, cfg: &ZoneGenCfg) -> GenZone {
         _ => 75 + rng.usize(cfg.max_trans.saturating_sub(75).max(1)),
     }
     .min(cfg.max_trans);
-    let ntrans = if many_trans { 1000 + rng.usize(1500) } else { ntrans };
+    let ntrans = if many_trans { 1000 + rng.usize(5000) } else { ntrans };
 
     let tight = ntrans >= 2 && !close && rng.chance(1, 20);
     let v1 = version == 1;
